@@ -670,7 +670,7 @@ func (w *Worker) drawsWithModel(model map[string]uint64) []Draw {
 	for i, d := range w.draws {
 		nd := d
 		switch d.Kind {
-		case "int", "bool":
+		case "int", "bool", "env":
 			if len(d.vars) == 1 {
 				nd.Val = model[d.vars[0]]
 			}
